@@ -171,9 +171,15 @@ ReadSecure(s) == s.rd # "none"
 (*   "bad"    record layer passes it, content does not parse / verify       *)
 (*   "rlfail" record layer rejects it (bad version/length/type)             *)
 (*   "part"   it is an incomplete record or message: buffered, no progress  *)
+(*   "encfail" a handshake message is accepted as with "good", but the      *)
+(*            endpoint then fails to create its own answering flight (no    *)
+(*            usable key or signature algorithm, a signing error): it sends *)
+(*            a fatal alert in place of the flight and is dead              *)
+(*            (sslEncode.c flightEncode, sslDecode.c / tls13Decode.c        *)
+(*            encodeResponse)                                               *)
 (***************************************************************************)
 RecTypes == {"hs", "ccs", "app", "alert", "junk"}
-Choices == {"good", "bad", "rlfail", "part"}
+Choices == {"good", "bad", "rlfail", "part", "encfail"}
 
 
 (* How the record layer classifies the record. *)
@@ -316,7 +322,7 @@ Pending(s, rpass) ==
     [Result([s EXCEPT !.desync = TRUE, !.tampered = s.tampered \/ ~s.done], <<>>, <<>>, 0, FALSE, rpass) EXCEPT !.loose = TRUE]
 
 \* which choices make sense for this record in this state
-AllowedChoices(s, r) ==
+AllowedChoicesBase(s, r) ==
     LET v == Verdict(s, r) IN
     \* DTLS: a datagram that is incomplete, duplicated, out of order or fails authentication may be
     \* discarded silently (RFC 6347 4.1.2.7); "part" stands for that on DTLS sessions
@@ -335,8 +341,12 @@ AllowedChoices(s, r) ==
     ELSE IF r.it = "hs" THEN {"good", "bad"}
     ELSE {"good"}
 
+AllowedChoices(s, r) ==
+    LET b == AllowedChoicesBase(s, r) \ {"encfail"} IN
+    b \cup (IF r.it = "hs" /\ "good" \in b /\ ~s.done THEN {"encfail"} ELSE {})
+
 (* One record handed to a live endpoint. *)
-Recv(s, r, c, ch) ==
+RecvBase(s, r, c, ch) ==
     LET v == Verdict(s, r) IN
     IF s.cfg.dtls /\ ch = "part" THEN
         [Result(s, <<>>, <<>>, 0, FALSE, FALSE) EXCEPT !.loose = TRUE]      \* datagram discarded
@@ -361,6 +371,12 @@ Recv(s, r, c, ch) ==
       [] v = "plain" /\ r.free /\ ch = "rlfail" -> Result(Kill(s, "fatalsent"), <<>>, <<>>, 0, TRUE, FALSE)
       [] v = "plain" /\ r.free /\ ch = "part" -> Pending(s, FALSE)
       [] OTHER -> Dispatch(s, r, c, ch, v)
+
+Recv(s, r, c, ch) ==
+    IF ch # "encfail" THEN RecvBase(s, r, c, ch)
+    ELSE LET g == RecvBase(s, r, c, "good") IN
+         IF ~Live(g.next) \/ g.loose THEN g
+         ELSE [g EXCEPT !.next = Kill(g.next, "fatalsent"), !.alertOut = TRUE, !.ndlv = 0]
 
 (* Anything handed to a dead endpoint: nothing happens (C15). *)
 RecvDead(s) ==
